@@ -270,7 +270,7 @@ fn main() {
             let off = (args.seed % 4) as usize;
             cases.extend(all.into_iter().enumerate().filter(|(i, _)| i % 4 == off).map(|(_, c)| c));
         }
-        let n_rand = if args.thorough() { 3000 } else { 400 };
+        let n_rand = if args.thorough() { 12000 } else { 400 };
         for i in 0..n_rand {
             let n = if i % 20 == 0 { 30 + rng.usize(31) } else { 1 + rng.usize(14) };
             cases.push(random_case(&mut rng, n, "random", false));
